@@ -111,6 +111,11 @@ func c16Stops(first, tracks string, r *core.Rand) []*gtfsrt.TripUpdate_StopTimeU
 		case "empty-extension":
 			proto.SetExtension(u, gtfsrt.E_NyctStopTimeUpdate, &gtfsrt.NyctStopTimeUpdate{})
 		}
+		// the track rule does not depend on the stop's schedule relationship
+		if sr := r.Intn(6); sr < 3 {
+			x := gtfsrt.TripUpdate_StopTimeUpdate_ScheduleRelationship(sr) // SCHEDULED, SKIPPED, NO_DATA
+			u.ScheduleRelationship = &x
+		}
 		return u
 	}
 	ev := func(t int64) *gtfsrt.TripUpdate_StopTimeEvent {
